@@ -61,6 +61,9 @@ def lrule(st, n):
     h = sym_str(st, "s", n)
     run_prop(st, "shorteners/l-rule", S.shortener_predicates, cat("http://l.example.com/", h))
     run_prop(st, "shorteners/l-rule", S.shortener_predicates, cat("http://l", h, "example.com/abc"))
+    # homepage-looking one-token paths on an 'l.' host
+    run_prop(st, "shorteners/l-rule-home", S.shortener_predicates, cat("https://l.example.com/hom", h))
+    run_prop(st, "shorteners/l-rule-home", S.shortener_predicates, cat("http://u@l.bit.ly/inde", h, "?q#f"))
 
 
 def same(st, pred, n, m):
